@@ -512,7 +512,15 @@ def r_codec(ctx) -> RuleResult:
     sortf = ctx.repo.find_func("tucan.graph_utils.sort_molecule_by_attribute")
     writer_calls = [cs for cs in sites(ctx, ser) if cs.kind == "tucan" and cs.target.name.startswith("_write")]
     if not writer_calls:
-        raise AnalysisError("serialize_molecule calls no _write_* helper (anchor vanished)")
+        # writers reached through a table / loop variable: the argument of every call of a non-tucan callee in the serializer
+        # that receives a local graph stands for them
+        reach = [q for q in ctx.cg.closure([ser.fq]) if ctx.cg.funcs[q].name.startswith("_write")]
+        if not reach:
+            raise AnalysisError("serialize_molecule calls no _write_* helper (anchor vanished)")
+        writer_calls = [cs for cs in sites(ctx, ser) if cs.kind in ("unknown", "param", "method") and cs.node.args and isinstance(cs.node.args[0], ast.Name)
+                        and isinstance(cs.node.func, ast.Name)]
+        if not writer_calls:
+            raise AnalysisError("R-CODEC: cannot see with which graph the serializer's writers are called")
     for cs in writer_calls:
         arg = cs.node.args[0] if cs.node.args else None
         src = single_def(ser.node, arg.id) if isinstance(arg, ast.Name) else arg
@@ -651,9 +659,21 @@ def _check_emitters(ctx, res: RuleResult):
                 # filtering
                 filt = []
                 if isinstance(owner, ast.For):
-                    for x in own_walk(owner):
-                        if isinstance(x, (ast.Continue, ast.Break)):
-                            filt.append(x)
+                    def jumps_of(stmts):
+                        """continue / break statements that belong to this loop (not to a loop nested in it)"""
+                        for st_ in stmts:
+                            if isinstance(st_, (ast.Continue, ast.Break)):
+                                yield st_
+                            elif isinstance(st_, (ast.For, ast.While, ast.FunctionDef)):
+                                continue
+                            else:
+                                for fld in ("body", "orelse", "finalbody"):
+                                    sub_ = getattr(st_, fld, None)
+                                    if isinstance(sub_, list):
+                                        yield from jumps_of([z for z in sub_ if isinstance(z, ast.stmt)])
+                                for h in getattr(st_, "handlers", []) or []:
+                                    yield from jumps_of(h.body)
+                    filt += list(jumps_of(owner.body))
                 else:
                     for g in owner.generators:
                         if g.iter is it:
@@ -670,9 +690,18 @@ def _check_emitters(ctx, res: RuleResult):
                     if not okf:
                         res.fail(Finding("R-CODEC", fi.module.rel, fi.qualname, norm(f if not isinstance(f, (ast.Continue, ast.Break)) else _guard_of(owner, f) or f),
                                          f"part of the molecule is filtered out of the string (iteration over {kind})", line=getattr(f, "lineno", None)))
+        formatted = []
         for n in own_walk(fn):
             if isinstance(n, ast.FormattedValue):
-                e = n.value
+                formatted.append(n.value)
+            elif isinstance(n, ast.Call) and isinstance(n.func, ast.Attribute) and n.func.attr == "format" and isinstance(try_const(ctx, fi, n.func.value), str):
+                formatted += list(n.args) + [k.value for k in n.keywords]
+            elif isinstance(n, ast.BinOp) and isinstance(n.op, ast.Mod) and isinstance(try_const(ctx, fi, n.left), str):
+                formatted += list(n.right.elts) if isinstance(n.right, ast.Tuple) else [n.right]
+            elif isinstance(n, ast.Call) and isinstance(n.func, ast.Name) and n.func.id == "str" and len(n.args) == 1:
+                formatted.append(n.args[0])
+        for e in formatted:
+            if True:
                 base = e
                 k = 0
                 if isinstance(e, ast.BinOp) and isinstance(e.op, (ast.Add, ast.Sub)) and isinstance(e.right, ast.Constant) and isinstance(e.right.value, int):
@@ -698,6 +727,11 @@ def _iter_source(fi: FuncInfo, it: ast.expr, depth=0) -> Optional[str]:
         return None
     while isinstance(it, ast.Call) and isinstance(it.func, ast.Name) and it.func.id in ("sorted", "list", "tuple", "reversed", "set", "frozenset") and it.args:
         it = it.args[0]
+    if isinstance(it, ast.Call) and isinstance(it.func, ast.Name) and it.func.id == "map" and len(it.args) == 2 and isinstance(it.args[0], ast.Name) \
+            and it.args[0].id in ("sorted", "tuple", "list"):
+        return _iter_source(fi, it.args[1], depth + 1)          # map(sorted, m.edges()): the same edges, endpoints ordered
+    if isinstance(it, ast.Call) and isinstance(it.func, ast.Attribute) and it.func.attr == "items" and isinstance(it.func.value, ast.Attribute) and it.func.value.attr == "nodes":
+        return "nodes_data"                                     # m.nodes.items(): (label, attributes) of every node
     if isinstance(it, ast.Name):
         d = single_def(fi.node, it.id)
         return _iter_source(fi, d, depth + 1) if d is not None else None
@@ -826,7 +860,14 @@ def _accepted_filter(ctx, fi: FuncInfo, f: ast.AST, owner: ast.AST, label_names:
     if isinstance(t, ast.Compare) and not (len(t.ops) == 1 and isinstance(t.ops[0], (ast.In, ast.NotIn))):
         return False
     if isinstance(t, ast.Compare):
-        # `if K in attrs` as the element filter of a per-attribute loop is handled by the caller's iteration kind
+        # `K in attrs` guarding the very look-up attrs[K] that the element is made of: what nx.get_node_attributes(m, K)
+        # does as well (every atom of a molecule has the attribute; the guard only avoids a KeyError)
+        if isinstance(t.ops[0], ast.In) and keep_when_truthy and isinstance(owner, (ast.ListComp, ast.GeneratorExp, ast.SetComp, ast.DictComp)):
+            elts = [owner.elt] if not isinstance(owner, ast.DictComp) else [owner.key, owner.value]
+            kt, ct = norm(t.left), norm(t.comparators[0])
+            reads = [x for e_ in elts for x in ast.walk(e_) if isinstance(x, ast.Subscript) and norm(x.value) == ct and norm(x.slice) == kt]
+            if reads:
+                return True
         return None
     pc = _presence_collection(ctx, fi, t, owner if not isinstance(owner, (ast.ListComp, ast.GeneratorExp, ast.SetComp, ast.DictComp)) else fi.node)
     if pc is True:
